@@ -99,6 +99,10 @@ def _match_display_names_exact(
     for prop in importable_props:
         if prop in display_name_to_key:
             feature_key, idx = display_name_to_key[prop]
+            # Never overwrite a key matched in an earlier step or by an earlier column:
+            # the column stays in props_left (and ends up as a custom property)
+            if feature_key in mapping or idx in multi_value_matches.get(feature_key, {}):
+                continue
             # Check if this is a multi-value feature (has other indices)
             is_multi_value = any(
                 k == feature_key and i != idx for _, (k, i) in display_name_to_key.items()
@@ -168,6 +172,10 @@ def _match_display_names_fuzzy(
 
         if closest:
             _, feature_key, idx = lower_display_map[closest[0]]
+            # Never overwrite a key matched in an earlier step or by an earlier column:
+            # the column stays in props_left (and ends up as a custom property)
+            if feature_key in mapping or idx in multi_value_matches.get(feature_key, {}):
+                continue
             # Check if this is a multi-value feature
             is_multi_value = any(
                 k == feature_key and i != idx for _, (k, i) in display_name_to_key.items()
